@@ -262,7 +262,8 @@ func scenarioC10(x *runner.X) {
 			return
 		}
 		type metaer interface{ Meta() *indexes.Metadata }
-		for name, m := range map[string]metaer{"cid-to-offset-and-size": ep.cidToOffsetAndSizeIndex, "slot-to-cid": ep.slotToCidIndex, "sig-to-cid": ep.sigToCidIndex} {
+		for i, m := range []metaer{ep.cidToOffsetAndSizeIndex, ep.slotToCidIndex, ep.sigToCidIndex} {
+			name := []string{"cid-to-offset-and-size", "slot-to-cid", "sig-to-cid"}[i]
 			md := m.Meta()
 			if md.Epoch != e1 || !md.RootCid.Equals(w1.w.Root) || md.Network != indexes.NetworkMainnet {
 				x.Failf("oracle", "identity metadata written at build time is not read back unchanged", "%s: epoch %d root %s network %s; written %d %s mainnet", name, md.Epoch, md.RootCid, md.Network, e1, w1.w.Root)
